@@ -1,4 +1,5 @@
 import SqlObjVerif.Lemmas.Expr
+import SqlObjVerif.Lemmas.ExprXTop
 /-!
 # C03 — query expressions mean what was built (property theorems only)
 
@@ -224,3 +225,261 @@ example : coerce (E.andOp (.cmp .eq (.col 0) (.fconst false 3)) (.cmp .lt (.col 
   simp [coerce, coerceCmp]
 
 end SqlObjVerif.Expr
+
+namespace SqlObjVerif.ExprX
+open SqlObjVerif.PyExpr SqlObjVerif.PyExpr.Extracted
+
+/-! ## C03 about the TRANSLATED source (`Extracted/PyExpr.lean`, regenerated from sqlbuilder.py / converters.py) -/
+
+/-- `SQLOp.__sqlrepr__` as translated: for EVERY interface, receiver class, dialect value and operand renderings
+    `s1`, `s2` it returns `opStr` (the paren rule on text) … -/
+theorem C03_translated_SQLOp_sqlrepr_text (I : Iface) (cls : String) (fs : List (String × Val)) (db : Val)
+    (op s1 s2 : Str) (e1 e2 : Val) (hop : aget "op" fs = some (.str op)) (h1 : aget "expr1" fs = some e1)
+    (h2 : aget "expr2" fs = some e2) (hs1 : I.call "sqlrepr" [e1, db] = .ok (.str s1))
+    (hs2 : I.call "sqlrepr" [e2, db] = .ok (.str s2)) (hn1 : s1 ≠ []) (hn2 : s2 ≠ []) :
+    run I SQLOp_sqlrepr [.obj cls fs, db] = .ret (.str (opStr op s1 s2 (I.isSub (typeName e2) "Subquery"))) :=
+  SQLOp_sqlrepr_spec I cls fs db op s1 s2 e1 e2 hop h1 h2 hs1 hs2 hn1 hn2
+
+/-- … which is the model's `renderOp` on op nodes: whenever the operand texts spell token lists `t1`, `t2` (and the
+    two tests of the paren rule agree on them, `Rep`), the returned text spells `renderOp (op o) t1 t2` -/
+theorem C03_translated_SQLOp_sqlrepr_eq_model (P : Params) (I : Iface) (cls : String) (fs : List (String × Val))
+    (db : Val) (o : BinOp) (s1 s2 : Str) (e1 e2 : Val) (t1 t2 : List Tok)
+    (hop : aget "op" fs = some (.str (binText o))) (h1 : aget "expr1" fs = some e1) (h2 : aget "expr2" fs = some e2)
+    (hs1 : I.call "sqlrepr" [e1, db] = .ok (.str s1)) (hs2 : I.call "sqlrepr" [e2, db] = .ok (.str s2))
+    (hn1 : s1 ≠ []) (hn2 : s2 ≠ []) (hsub : I.isSub (typeName e2) "Subquery" = false)
+    (r1 : Rep P t1 s1) (r2 : Rep P t2 s2) :
+    ∃ s, run I SQLOp_sqlrepr [.obj cls fs, db] = .ret (.str s) ∧ Rep P (Expr.renderOp (Expr.Tok.op o) t1 t2) s := by
+  refine ⟨_, SQLOp_sqlrepr_spec I cls fs db _ s1 s2 e1 e2 hop h1 h2 hs1 hs2 hn1 hn2, ?_⟩
+  rw [hsub]
+  exact rep_op P (.op o) _ rfl r1 (wrap_rep r2)
+
+theorem C03_translated_SQLPrefix_sqlrepr_eq_model (P : Params) (I : Iface) (cls : String) (fs : List (String × Val))
+    (db : Val) (p : PreOp) (s : Str) (e : Val) (t : List Tok) (hp : aget "prefix" fs = some (.str (preText p)))
+    (he : aget "expr" fs = some e) (hs : I.call "sqlrepr" [e, db] = .ok (.str s)) (r : Spells P t s) :
+    run I SQLPrefix_sqlrepr [.obj cls fs, db] = .ret (.str (prefixStr (preText p) s)) ∧
+    Spells P (Expr.Tok.pre p :: t) (prefixStr (preText p) s) :=
+  ⟨SQLPrefix_sqlrepr_spec I cls fs db _ s e hp he hs, Spells.tok (.pre p) (Spells.blank r)⟩
+
+/-- `SQLModulo.__sqlrepr__`: the infix form exactly for the dialects of `Extracted.moduloInfixDialects`, `MOD(a, b)`
+    for every other dialect string -/
+theorem C03_translated_SQLModulo_sqlrepr_eq_model (I : Iface) (cls : String) (fs : List (String × Val)) (d : String)
+    (s1 s2 : Str) (e1 e2 : Val) (h1 : aget "expr1" fs = some e1) (h2 : aget "expr2" fs = some e2)
+    (hs1 : I.call "sqlrepr" [e1, .str (strOf d)] = .ok (.str s1))
+    (hs2 : I.call "sqlrepr" [e2, .str (strOf d)] = .ok (.str s2)) :
+    run I SQLModulo_sqlrepr [.obj cls fs, .str (strOf d)] =
+      if Expr.moduloInfix d = true then (I.clsCall "SQLOp" "__sqlrepr__" [.obj cls fs, .str (strOf d)]).toOut
+      else .ret (.str (modStr s1 s2)) := by
+  rw [SQLModulo_sqlrepr_spec I cls fs _ s1 s2 e1 e2 h1 h2 hs1 hs2]
+  by_cases hd : Expr.moduloInfix d = true
+  · rw [if_pos ((strOf_sqlite d).mpr hd), if_pos hd]
+  · rw [if_neg (fun h => hd ((strOf_sqlite d).mp h)), if_neg hd]
+
+/-- lists / tuples: `SequenceConverter` gives `(` items joined by `, ` `)` -/
+theorem C03_translated_sequence_eq_model (I : Iface) (db : Val) (vs : List Val) (ss : List Str)
+    (h : AllR (fun v s => I.call "sqlrepr" [v, db] = .ok (.str s)) vs ss) :
+    run I f_SequenceConverter [.list vs, db] = .ret (.str (seqStr ss)) :=
+  SequenceConverter_list I db vs ss h
+
+/-- the leaf converters: `None` is `NULL`, an int / float is its `repr` -/
+theorem C03_translated_leaf_converters (I : Iface) (db v : Val) (i : Int) (b : Bool) (n : Nat) :
+    run I f_NoneConverter [v, db] = .ret (.str nullText) ∧
+    run I f_IntConverter [.int i, db] = .ret (.str (I.reprInt i)) ∧
+    run I f_FloatConverter [.flt b n, db] = .ret (.str (I.reprFlt b n)) :=
+  ⟨NoneConverter_spec I v db, IntConverter_spec I i db, FloatConverter_spec I b n db⟩
+
+/-- WHOLE GRAPHS: `sqlrepr(node, d)` run by the translated `__sqlrepr__` methods and converters (dispatch = the
+    interpreter's recursion on the graph) is the text-level hand model, for every node graph and every dialect string;
+    for expression-shaped graphs that text spells the token rendering of the hand model -/
+theorem C03_translated_sqlrepr_eq_model (P : Params) (hT : TextOk P) (d : String) (n : Node) (k : Nat)
+    (hk : depth n ≤ k) :
+    sqlreprX P k (toVal P n) (strOf d) = .ok (.str (renderS P d n)) ∧
+    (Expr.wf false (Expr.toT d n) = true → Spells P (Expr.render d false n) (renderS P d n)) :=
+  ⟨sqlrepr_toVal P d hT.leafOk n k hk, spells_render P hT d n⟩
+
+/-! ### constructors -/
+
+theorem C03_translated_add_eq_model (P : Params) (k : Nat) (a b : Node) (ha : isObjNode a = true) :
+    callM (ifaceF P (k + 1)) (toVal P a) "__add__" [toVal P b] = .ok (toVal P (Expr.applyOv Expr.Extracted.add a b)) :=
+  callM_ov P k a b ha _ _ _ rs_add add_spec
+theorem C03_translated_radd_eq_model (P : Params) (k : Nat) (a b : Node) (ha : isObjNode a = true) :
+    callM (ifaceF P (k + 1)) (toVal P a) "__radd__" [toVal P b] = .ok (toVal P (Expr.applyOv Expr.Extracted.radd a b)) :=
+  callM_ov P k a b ha _ _ _ rs_radd radd_spec
+theorem C03_translated_sub_eq_model (P : Params) (k : Nat) (a b : Node) (ha : isObjNode a = true) :
+    callM (ifaceF P (k + 1)) (toVal P a) "__sub__" [toVal P b] = .ok (toVal P (Expr.applyOv Expr.Extracted.sub a b)) :=
+  callM_ov P k a b ha _ _ _ rs_sub sub_spec
+theorem C03_translated_rsub_eq_model (P : Params) (k : Nat) (a b : Node) (ha : isObjNode a = true) :
+    callM (ifaceF P (k + 1)) (toVal P a) "__rsub__" [toVal P b] = .ok (toVal P (Expr.applyOv Expr.Extracted.rsub a b)) :=
+  callM_ov P k a b ha _ _ _ rs_rsub rsub_spec
+theorem C03_translated_mul_eq_model (P : Params) (k : Nat) (a b : Node) (ha : isObjNode a = true) :
+    callM (ifaceF P (k + 1)) (toVal P a) "__mul__" [toVal P b] = .ok (toVal P (Expr.applyOv Expr.Extracted.mul a b)) :=
+  callM_ov P k a b ha _ _ _ rs_mul mul_spec
+theorem C03_translated_rmul_eq_model (P : Params) (k : Nat) (a b : Node) (ha : isObjNode a = true) :
+    callM (ifaceF P (k + 1)) (toVal P a) "__rmul__" [toVal P b] = .ok (toVal P (Expr.applyOv Expr.Extracted.rmul a b)) :=
+  callM_ov P k a b ha _ _ _ rs_rmul rmul_spec
+theorem C03_translated_truediv_eq_model (P : Params) (k : Nat) (a b : Node) (ha : isObjNode a = true) :
+    callM (ifaceF P (k + 1)) (toVal P a) "__truediv__" [toVal P b] = .ok (toVal P (Expr.applyOv Expr.Extracted.div a b)) :=
+  callM_ov P k a b ha _ _ _ rs_truediv truediv_spec
+theorem C03_translated_rtruediv_eq_model (P : Params) (k : Nat) (a b : Node) (ha : isObjNode a = true) :
+    callM (ifaceF P (k + 1)) (toVal P a) "__rtruediv__" [toVal P b] =
+      .ok (toVal P (Expr.applyOv Expr.Extracted.rdiv a b)) :=
+  callM_ov P k a b ha _ _ _ rs_rtruediv rtruediv_spec
+theorem C03_translated_lt_eq_model (P : Params) (k : Nat) (a b : Node) (ha : isObjNode a = true) :
+    callM (ifaceF P (k + 1)) (toVal P a) "__lt__" [toVal P b] = .ok (toVal P (Expr.applyOv Expr.Extracted.lt a b)) :=
+  callM_ov P k a b ha _ _ _ rs_lt lt_spec
+theorem C03_translated_le_eq_model (P : Params) (k : Nat) (a b : Node) (ha : isObjNode a = true) :
+    callM (ifaceF P (k + 1)) (toVal P a) "__le__" [toVal P b] = .ok (toVal P (Expr.applyOv Expr.Extracted.le a b)) :=
+  callM_ov P k a b ha _ _ _ rs_le le_spec
+theorem C03_translated_gt_eq_model (P : Params) (k : Nat) (a b : Node) (ha : isObjNode a = true) :
+    callM (ifaceF P (k + 1)) (toVal P a) "__gt__" [toVal P b] = .ok (toVal P (Expr.applyOv Expr.Extracted.gt a b)) :=
+  callM_ov P k a b ha _ _ _ rs_gt gt_spec
+theorem C03_translated_ge_eq_model (P : Params) (k : Nat) (a b : Node) (ha : isObjNode a = true) :
+    callM (ifaceF P (k + 1)) (toVal P a) "__ge__" [toVal P b] = .ok (toVal P (Expr.applyOv Expr.Extracted.ge a b)) :=
+  callM_ov P k a b ha _ _ _ rs_ge ge_spec
+theorem C03_translated_and_eq_model (P : Params) (k : Nat) (a b : Node) (ha : isObjNode a = true) :
+    callM (ifaceF P (k + 1)) (toVal P a) "__and__" [toVal P b] = .ok (toVal P (Expr.applyOv Expr.Extracted.andOp a b)) :=
+  callM_ov P k a b ha _ _ _ rs_and and_spec
+theorem C03_translated_or_eq_model (P : Params) (k : Nat) (a b : Node) (ha : isObjNode a = true) :
+    callM (ifaceF P (k + 1)) (toVal P a) "__or__" [toVal P b] = .ok (toVal P (Expr.applyOv Expr.Extracted.orOp a b)) :=
+  callM_ov P k a b ha _ _ _ rs_or or_spec
+theorem C03_translated_neg_eq_model (P : Params) (k : Nat) (a : Node) (ha : isObjNode a = true) :
+    callM (ifaceF P (k + 1)) (toVal P a) "__neg__" [] = .ok (toVal P (.prefix Expr.Extracted.negOp a)) :=
+  callM_pre P k a ha _ _ _ rs_neg neg_spec
+theorem C03_translated_pos_eq_model (P : Params) (k : Nat) (a : Node) (ha : isObjNode a = true) :
+    callM (ifaceF P (k + 1)) (toVal P a) "__pos__" [] = .ok (toVal P (.prefix Expr.Extracted.posOp a)) :=
+  callM_pre P k a ha _ _ _ rs_pos pos_spec
+theorem C03_translated_invert_eq_model (P : Params) (k : Nat) (a : Node) (ha : isObjNode a = true) :
+    callM (ifaceF P (k + 1)) (toVal P a) "__invert__" [] = .ok (toVal P (.prefix Expr.Extracted.invertOp a)) :=
+  callM_pre P k a ha _ _ _ rs_invert invert_spec
+theorem C03_translated_mod_eq_model (P : Params) (k : Nat) (a b : Node) (ha : isObjNode a = true) :
+    callM (ifaceF P (k + 2)) (toVal P a) "__mod__" [toVal P b] = .ok (toVal P (.modulo a b)) :=
+  callM_mod P k a b ha
+
+/-- `__eq__` / `__ne__` of `SQLExpression` and of `SQLObjectField` (the column's `from_python` conversion is the
+    parameter `P.fromPython`, here the identity on the compared constant), against a value and against `None` -/
+theorem C03_translated_eq_ne_eq_model (P : Params) (hfp : ∀ c v, P.fromPython c v = .ok v) (k : Nat) (a b : Node)
+    (ha : isObjNode a = true) (hb : (nodeCls b == "NoneType") = false) :
+    callM (ifaceF P (k + 2)) (toVal P a) "__eq__" [toVal P b] =
+      .ok (toVal P (Expr.applyOv (Expr.cmpOv (nodeCls a == "SQLObjectField") .eq) a b)) ∧
+    callM (ifaceF P (k + 2)) (toVal P a) "__ne__" [toVal P b] =
+      .ok (toVal P (Expr.applyOv (Expr.cmpOv (nodeCls a == "SQLObjectField") .ne) a b)) ∧
+    callM (ifaceF P (k + 2)) (toVal P a) "__eq__" [.none] =
+      .ok (toVal P (if nodeCls a == "SQLObjectField"
+        then Expr.noneRule Expr.Extracted.fieldEqNone Expr.Extracted.fieldEq a
+        else Expr.noneRule Expr.Extracted.exprEqNone Expr.Extracted.exprEq a)) ∧
+    callM (ifaceF P (k + 2)) (toVal P a) "__ne__" [.none] =
+      .ok (toVal P (if nodeCls a == "SQLObjectField"
+        then Expr.noneRule Expr.Extracted.fieldNeNone Expr.Extracted.fieldNe a
+        else Expr.noneRule Expr.Extracted.exprNeNone Expr.Extracted.exprNe a)) :=
+  ⟨(eq_direct P hfp (k + 1) a b ha hb).1, (eq_direct P hfp (k + 1) a b ha hb).2, (eq_none P k a ha).1, (eq_none P k a ha).2⟩
+
+/-- when the conversion refuses the constant, `IntCol == x` raises what `from_python` raises and builds nothing -/
+theorem C03_translated_field_eq_refused (I : Iface) (c : String) (fs : List (String × Val)) (b : Val) (e : Exc)
+    (hb : isNoneV b = false) (h : I.method (.obj c fs) "_from_python" [b] = .exc e) :
+    run I SQLObjectField_eq [.obj c fs, b] = .exc e ∧ run I SQLObjectField_ne [.obj c fs, b] = .exc e := by
+  rw [field_eq_spec, field_ne_spec, hb, h]; exact ⟨rfl, rfl⟩
+
+/-- `l <arith> r` with Python's dispatch (direct, reflected when `l` is a plain number, node constructor when both
+    are) = `build` -/
+theorem C03_translated_arith_eq_model (P : Params) (k : Nat) (o : Expr.ArOp) (ho : o ≠ .mod) (l r : Expr.NumE) :
+    binopX (ifaceF P (k + 3)) (arNames o).1 (arNames o).2.1 (arNames o).2.2
+      (toVal P (Expr.buildN l)) (toVal P (Expr.buildN r)) = .ok (toVal P (Expr.buildN (.ar o l r))) :=
+  binopX_build P k o ho l r
+
+/-- `l <cmp> r` with Python's dispatch (reflected method of `r` when `l` is a plain number, and FIRST when `type(r)` is
+    a proper subclass of `type(l)`: `SQLOp` vs `SQLModulo`) = `build` -/
+theorem C03_translated_cmp_eq_model (P : Params) (hfp : ∀ c v, P.fromPython c v = .ok v) (k : Nat) (o : Expr.CmpOp)
+    (l r : Expr.NumE) :
+    cmpX (ifaceF P (k + 3)) (cmpNames o).1 (cmpNames o).2.1 (cmpNames o).2.2
+      (toVal P (Expr.buildN l)) (toVal P (Expr.buildN r)) = .ok (toVal P (Expr.buildB (.cmp o l r))) :=
+  cmpX_build P hfp k o l r
+
+/-- `AND(e, e₁, …, eₙ)` through the translated recursion = `build (andN e es)`, any number of arguments -/
+theorem C03_translated_AND_eq_model (P : Params) (e : Expr.BoolE) (es : List Expr.BoolE) (k : Nat) :
+    callD (ifaceF P (k + es.length + 1)) "AND" ((e :: es).map fun x => toVal P (Expr.buildB x)) =
+      .ok (toVal P (Expr.buildB (Expr.andN e es))) := by
+  have := call_AND P (es.map fun x => Expr.build x) (Expr.build e) k
+  simp only [List.length_map, List.map_cons, List.map_map] at this
+  simp only [Expr.buildB, Expr.andN, Expr.foldFn, Expr.Extracted.andFold,
+    build_foldR .andFn Expr.Extracted.andFn (fun a b => rfl), List.map_cons]
+  exact this
+
+theorem C03_translated_OR_eq_model (P : Params) (e : Expr.BoolE) (es : List Expr.BoolE) (k : Nat) :
+    callD (ifaceF P (k + es.length + 1)) "OR" ((e :: es).map fun x => toVal P (Expr.buildB x)) =
+      .ok (toVal P (Expr.buildB (Expr.orN e es))) := by
+  have := call_OR P (es.map fun x => Expr.build x) (Expr.build e) k
+  simp only [List.length_map, List.map_cons, List.map_map] at this
+  simp only [Expr.buildB, Expr.orN, Expr.foldFn, Expr.Extracted.orFold,
+    build_foldR .orFn Expr.Extracted.orFn (fun a b => rfl), List.map_cons]
+  exact this
+
+theorem C03_translated_NOT_eq_model (P : Params) (k : Nat) (x : Expr.BoolE) :
+    callD (ifaceF P (k + 1)) "NOT" [toVal P (Expr.buildB x)] = .ok (toVal P (Expr.buildB (.notFn x))) :=
+  call_NOT P k _
+
+theorem C03_translated_IN_eq_model (P : Params) (k : Nat) (x : Expr.NumE) (l : Expr.Items) :
+    callD (ifaceF P (k + 2)) "IN" [toVal P (Expr.buildN x), toVal P (Expr.build l)] =
+      .ok (toVal P (Expr.buildB (.isin x l))) :=
+  call_IN P k _ _ (by rw [nodeCls_build, clsE_items])
+
+theorem C03_translated_NOTIN_eq_model (P : Params) (k : Nat) (x : Expr.NumE) (l : Expr.Items) :
+    callD (ifaceF P (k + 2)) "NOTIN" [toVal P (Expr.buildN x), toVal P (Expr.build l)] =
+      .ok (toVal P (Expr.buildB (.notin x l))) := by
+  rw [call_NOTIN P k _ _ (by rw [nodeCls_build, clsE_items])]
+  simp only [Expr.buildB, Expr.build, Expr.Extracted.notinNegates, if_true]
+
+theorem C03_translated_ISNULL_eq_model (P : Params) (k : Nat) (x : Expr.NumE) :
+    callD (ifaceF P (k + 1)) "ISNULL" [toVal P (Expr.buildN x)] = .ok (toVal P (Expr.buildB (.isnull x))) ∧
+    callD (ifaceF P (k + 1)) "ISNOTNULL" [toVal P (Expr.buildN x)] = .ok (toVal P (Expr.buildB (.isnotnull x))) :=
+  ⟨call_ISNULL P k _, call_ISNOTNULL P k _⟩
+
+/-- WHOLE TREES: evaluating the Python expression of a source tree with the translated overloads / builder
+    functions (Python's operator dispatch) builds the hand model's object graph -/
+theorem C03_translated_build_eq_model (P : Params) (hfp : ∀ c v, P.fromPython c v = .ok v) (k : Nat)
+    {s : Expr.Srt} (e : Expr.E s) : buildX P (ifaceF P (k + 3)) e = .ok (toVal P (Expr.build e)) :=
+  buildX_eq P hfp k e
+
+/-! ### the C03 statements about the translated source -/
+
+/-- no precedence capture, about the translated source: the text `sqlrepr(<tree built by the translated overloads>, d)`
+    computed by the translated renderers spells a token list that the reference parser reads back, under EVERY
+    precedence table, as exactly the tree that was built -/
+theorem C03_parse_render_translated (P : Params) (hT : TextOk P) (hfp : ∀ c v, P.fromPython c v = .ok v)
+    (Pr : Expr.Prec) (d : String) (e : Expr.BoolE) :
+    ∃ toks, Emits P d e toks ∧ Expr.parse Pr toks = some (Expr.toT d (Expr.buildB e)) :=
+  ⟨_, emits_render P hT hfp d e, SqlObjVerif.Expr.C03_parse_render Pr d e⟩
+
+/-- … and, used as a filter, selects exactly the rows on which the source tree is TRUE (three-valued logic) -/
+theorem C03_filter_sound_translated (P : Params) (hT : TextOk P) (hfp : ∀ c v, P.fromPython c v = .ok v)
+    (D : Expr.Dom) (Pr : Expr.Prec) (d : String) (e : Expr.BoolE) (r : Expr.Row D) :
+    ∃ toks t, Emits P d e toks ∧ Expr.parse Pr toks = some t ∧
+      (Expr.selects D t r = true ↔ Expr.evalB D r e = some true) := by
+  refine ⟨_, _, emits_render P hT hfp d e, SqlObjVerif.Expr.C03_parse_render Pr d e, ?_⟩
+  have := SqlObjVerif.Expr.C03_filter_sound D Pr d e r
+  simpa only [Expr.selected, SqlObjVerif.Expr.C03_parse_render] using this
+
+/-- … and never has an (in)equality operator followed by `NULL` -/
+theorem C03_no_eq_null_translated (P : Params) (hT : TextOk P) (hfp : ∀ c v, P.fromPython c v = .ok v)
+    (d : String) (e : Expr.BoolE) : ∃ toks, Emits P d e toks ∧ Expr.hasEqNull toks = false :=
+  ⟨_, emits_render P hT hfp d e, SqlObjVerif.Expr.C03_no_eq_null d e⟩
+
+
+/-! ### non-vacuity: a concrete naming / `repr` satisfying the leaf assumptions, and a run of the translated source -/
+
+example : TextOk P0 ∧ (∀ c v, P0.fromPython c v = .ok v) := by
+  refine ⟨⟨fun _ => ⟨116, [], rfl, by decide⟩, fun n => ⟨49, [], ?_, by decide, by decide⟩, fun i hi => ?_,
+    fun _ => ⟨48, [46, 53], rfl, by decide, by decide⟩, fun _ => rfl⟩, fun _ _ => rfl⟩
+  · have : ¬ ((n : Int) < 0) := by omega
+    simp [P0, this]
+  · have : ¬ ((i.natAbs : Int) < 0) := by omega
+    simp [P0, hi, this]
+
+/-- `(a == None) | (1 < -b % a)` built by the translated overloads and rendered by the translated renderers, for
+    SQLite and for MySQL -/
+example :
+    (buildX P0 (ifaceF P0 3) (.orOp (.eqNone (.col 0)) (.cmp .lt (.const 1) (.ar .mod (.neg (.col 1)) (.col 0))))).bind
+      (fun v => sqlreprX P0 6 v (strOf "sqlite")) =
+      .ok (.str (strOf "(((t.a) IS NULL) OR (((- t.b) % (t.a)) > (1)))")) ∧
+    (buildX P0 (ifaceF P0 3) (.cmp .lt (.const 1) (.ar .mod (.neg (.col 1)) (.col 0)))).bind
+      (fun v => sqlreprX P0 4 v (strOf "mysql")) = .ok (.str (strOf "((MOD(- t.b, t.a)) > (1))")) := by
+  constructor <;> rfl
+end SqlObjVerif.ExprX
